@@ -204,6 +204,14 @@ def gen(rng, tier):
     for i in range(m):
         stream = "lattice" if i % 2 == 0 else "float"
         p1, p2, p3 = gen_triangle(rng, stream)
+        if stream == "float" and i % 10 == 1:
+            # a base whose doubled area (the length of the raw cross product) is 1 to about six decimals but not exactly:
+            # the second base is still `height` away along the *unit* normal
+            a, b, c = (np.array(q) for q in (p1, p2, p3))
+            cr = float(np.linalg.norm(np.cross(b - a, c - a)))
+            if cr > 0:
+                f = math.sqrt((1.0 + rng.choice([-1, 1]) * 10.0 ** rng.uniform(-8, -6.1)) / cr)
+                p2, p3 = (a + (b - a) * f).tolist(), (a + (c - a) * f).tolist()
         if stream == "lattice":
             h = rng.choice([0.5, 1.0, 2.0, 3.0, 0.0, -1.0])
         else:
